@@ -13,6 +13,7 @@ import (
 	"time"
 
 	"github.com/centrifugal/centrifuge/internal/saferand"
+	"github.com/centrifugal/centrifuge/internal/zzverif/vhelp"
 	"github.com/centrifugal/centrifuge/internal/zzverif/vrand"
 	"github.com/centrifugal/centrifuge/internal/zzverif/vsched"
 	"github.com/centrifugal/protocol"
@@ -33,6 +34,7 @@ func init() {
 // calls n.Run().
 func vNewNode(mod func(c *Config)) *Node {
 	cfg := Config{LogLevel: LogLevelNone}
+	cfg.Metrics.RegistererGatherer = vhelp.NoopRegistry{}
 	if mod != nil {
 		mod(&cfg)
 	}
@@ -251,6 +253,7 @@ type vClient struct {
 	t     *vTransport
 	close ClientCloseFunc
 	id    uint32
+	delta string // delta type requested by subscribe()
 }
 
 func vNewClient(n *Node, t *vTransport, cred *Credentials) *vClient {
@@ -283,7 +286,7 @@ func (v *vClient) connect() bool {
 }
 
 func (v *vClient) subscribe(ch string) bool {
-	return v.cmd(&protocol.Command{Subscribe: &protocol.SubscribeRequest{Channel: ch}})
+	return v.cmd(&protocol.Command{Subscribe: &protocol.SubscribeRequest{Channel: ch, Delta: v.delta}})
 }
 
 func (v *vClient) unsubscribe(ch string) bool {
